@@ -443,11 +443,19 @@ spec:
         ensures r.0 == self.val(), r.1 == self.sp()
 @*/
 }
-// TRUSTED stand-in for `Located::new(inner, span: impl Into<Span>)`: the only argument types used by
+// TRUSTED stand-in for `Located::new(inner, span: impl Into<Span>)` (hand-written signature: the extra IntoSpan
+// bound lets the contract speak about the converted span): the only argument types used by
 // the covered code are Span and Range<usize>; both conversions keep start/end (src/span.rs From impls)
 pub trait IntoSpan: Sized { spec fn as_sp(self) -> (int, int); }
 impl IntoSpan for Span { open spec fn as_sp(self) -> (int, int) { (self.s(), self.e()) } }
 impl IntoSpan for core::ops::Range<usize> { open spec fn as_sp(self) -> (int, int) { (self.start as int, self.end as int) } }
+impl<T> Located<T> {
+    #[verifier::external_body]
+    pub fn new<S: Into<Span> + IntoSpan>(inner: T, span: S) -> (r: Self)
+        requires span.as_sp().0 <= span.as_sp().1, gbnd(span.as_sp().0), gbnd(span.as_sp().1),   // [C04] every located item is a reportable location
+        ensures r.val() == inner, r.sp().s() == span.as_sp().0, r.sp().e() == span.as_sp().1
+    { unimplemented!() }
+}
 } // verus!
 } // mod located
 
@@ -1080,12 +1088,113 @@ closure 2 `TokenKind` ret `b: bool`:
 } // verus!
 } // mod text_block
 
+pub mod quantity_parser {
+use vstd::prelude::*;
+use crate::*;
+use crate::block_parser::BlockParser;
+use crate::parser_model::*;
+use crate::located::Located;
+use crate::span::Span;
+verus! {
+/*@ type src/parser/quantity.rs ParsedQuantity
+derive
+@*/
+/*@ fn src/parser/quantity.rs parse_quantity stub
+ret r
+spec:
+    requires old(bp).wf(), tokens@.len() > 0, toks_ok(tokens@),
+    ensures final(bp).wf(), final(bp).same(old(bp)), final(bp).cur() == old(bp).cur(),
+@*/
+} // verus!
+} // mod quantity_parser
+
 pub mod step {
 use vstd::prelude::*;
 use crate::*;
 use crate::block_parser::BlockParser;
 use crate::parser_ev::{Event, BlockKind};
+use crate::parser_model::*;
+use crate::located::Located;
+use crate::text::Text;
+use crate::quantity_parser::parse_quantity;
 verus! {
+/*@ type src/parser/step.rs Body
+derive
+@*/
+/*@ type src/parser/step.rs ParsedModifiers
+derive
+@*/
+/*@ const src/parser/step.rs INGREDIENT
+rewrite `&str` => `&'static str`
+@*/
+/*@ const src/parser/step.rs COOKWARE
+rewrite `&str` => `&'static str`
+@*/
+/*@ const src/parser/step.rs TIMER
+rewrite `&str` => `&'static str`
+@*/
+
+pub open spec fn is_marker(k: TokenKind) -> bool { k == TokenKind::At || k == TokenKind::Hash || k == TokenKind::Tilde }
+
+/*@ fn src/parser/step.rs check_modifiers
+tags C03 C04 C07
+spec:
+    requires old(bp).wf(), toks_ok(modifiers_tokens@), container@ != INGREDIENT@, container@ != COOKWARE@,
+    ensures final(bp).wf(), final(bp).same(old(bp)), final(bp).cur() == old(bp).cur(),
+        // [C07] one error exactly when modifiers are present
+        modifiers_tokens@.len() == 0 ==> final(bp).evs() == old(bp).evs(),
+        modifiers_tokens@.len() > 0 ==> final(bp).evs().len() == old(bp).evs().len() + 1 && final(bp).evs().last() is Error,
+@*/
+/*@ fn src/parser/step.rs check_intermediate_data
+tags C03 C04 C07
+ret r
+spec:
+    requires old(bp).wf(), container@ != INGREDIENT@,
+        parsed_modifiers.intermediate_data.is_some() ==> parsed_modifiers.intermediate_data.unwrap().sp().ok(),
+    ensures final(bp).wf(), final(bp).same(old(bp)), final(bp).cur() == old(bp).cur(),
+        r == parsed_modifiers.flags,
+@*/
+/*@ fn src/parser/step.rs check_empty_name
+tags C03 C04 C07
+spec:
+    requires old(bp).wf(), name.wf(), gbnd(name.start_spec()), gbnd(name.end_spec()),
+    ensures final(bp).wf(), final(bp).same(old(bp)), final(bp).cur() == old(bp).cur(),
+        // [C07] one error exactly when the name is blank
+        !name.blank() ==> final(bp).evs() == old(bp).evs(),
+        name.blank() ==> final(bp).evs().len() == old(bp).evs().len() + 1 && final(bp).evs().last() is Error,
+@*/
+/*@ fn src/parser/step.rs check_alias
+tags C03 C04 C07 C02
+spec:
+    requires old(bp).wf(), toks_ok(name_tokens@), container@ != INGREDIENT@, container@ != COOKWARE@,
+    ensures final(bp).wf(), final(bp).same(old(bp)), final(bp).cur() == old(bp).cur(),
+        // [C02] with the alias extension off nothing is checked or reported
+        !old(bp).ext().has(Extensions::COMPONENT_ALIAS) ==> final(bp).evs() == old(bp).evs(),
+        // [C07] at most one error
+        final(bp).evs() == old(bp).evs() || (final(bp).evs().len() == old(bp).evs().len() + 1 && final(bp).evs().last() is Error),
+closure 0 `&Token` ret `b: bool`:
+        ensures b == (t.kind == TokenKind::Or)
+before `if let Some(sep) = name_tokens.iter().position(`:
+    proof { lemma_vals_as_ref(name_tokens@); }
+before `let to_remove = Span::new(`:
+        proof { lemma_mono(name_tokens@, sep as int, name_tokens@.len() - 1); }
+@*/
+/*@ fn src/parser/step.rs check_note
+tags C03 C04 C07
+hoist 0
+spec:
+    requires old(bp).wf(), old(bp).cur() >= 1, container@ != INGREDIENT@, container@ != COOKWARE@,
+    ensures final(bp).wf(), final(bp).same(old(bp)), final(bp).cur() == old(bp).cur(),    // [C05] the note is never consumed: it stays text
+        final(bp).evs() == old(bp).evs() || (final(bp).evs().len() == old(bp).evs().len() + 1 && final(bp).evs().last() is Warning),
+closure 0 `&mut BlockParser` ret `o: Option<()>`:
+        requires old(bp).wf(), old(bp).cur() >= 1
+        ensures final(bp).wf(), final(bp).same(old(bp)), o.is_none(),
+            final(bp).evs() == old(bp).evs() || (final(bp).evs().len() == old(bp).evs().len() + 1 && final(bp).evs().last() is Warning),
+closure 1 `TokenKind` ret `b: bool`:
+        ensures b == (t == TokenKind::CloseParen)
+before `bp.warn(`:
+            proof { lemma_mono(bp.toks(), old(bp).cur(), bp.cur() - 1); }
+@*/
 /*@ fn src/parser/step.rs parse_step stub
 spec:
     requires old(bp).wf(), old(bp).cur() == 0,
